@@ -618,6 +618,11 @@ func decisionTable(fn *ssa.Function, atoms map[string]string, resultIdx int, wan
 	}
 	sortStrings(names)
 	atomOf := func(c string) (string, bool, bool) {
+		nc, pol := normCond(c)
+		if n, ok := atoms[nc]; ok {
+			return n, pol, true
+		}
+		// the atom may have been given in its != spelling
 		neg := false
 		for strings.HasPrefix(c, "!") {
 			neg = !neg
